@@ -189,9 +189,10 @@ class DecimalRenderer(ColumnRenderer):
 
     def update(self, value):
         n = value.as_tuple()
-        if n.exponent > 0:
+        if not value.is_finite() or n.exponent > 0:
             # Special case for decimal numbers with positive exponent
-            # and thus represented in scientific notation.
+            # and thus represented in scientific notation, and for
+            # NaN and infinities, which have no digits to align.
             self.nintegral = max(self.nintegral, len(str(value)))
         else:
             self.nintegral = max(self.nintegral, max(1, len(n.digits) + n.exponent) + n.sign)
@@ -203,9 +204,10 @@ class DecimalRenderer(ColumnRenderer):
 
     def format(self, value):
         n = value.as_tuple()
-        if n.exponent > 0:
+        if not value.is_finite() or n.exponent > 0:
             # Special case for decimal numbers with positive exponent
-            # and thus represented in scientific notation.
+            # and thus represented in scientific notation, and for
+            # NaN and infinities.
             return str(value).rjust(self.nintegral).ljust(self.maxwidth)
         # Compute the padding required to align the decimal point.
         left = self.nintegral - (max(1, len(n.digits) + n.exponent) + n.sign)
